@@ -19,7 +19,10 @@ lightweight objects (`object.__new__(Cls)` plus the attributes the method reads)
               violation with that (algorithm, K, m, delta) as the replay.
 """
 import math
+import os
 import struct
+
+os.environ.setdefault("OMP_NUM_THREADS", "1")  # many tiny cvxpy/numpy calls: threads only add contention
 from types import SimpleNamespace
 
 import numpy as np
@@ -32,7 +35,10 @@ RULE = ("sched: structured grid then random over (algorithm, K, m, delta, round,
         "region: (algorithm, region type, K<=5 designs, m, known means/covariances, active set); non-trivial = "
         "at least one active and one inactive design or a non-identity covariance. "
         "sum: (algorithm/region type, K in 1..1e4, m in 2..6, delta in 1e-6..0.999); non-trivial = partial sum > 0; "
-        "distinct by (algorithm, K, m, delta)")
+        "distinct by (algorithm, K, m, delta). "
+        "monitor: (PaVeBa | Auer, dataset values, cone, epsilon, delta, noise_var, noise seed, round budget); "
+        "non-trivial = PaVeBa: at least one round refreshed a design that is already in P (U non-empty); "
+        "Auer: at least 2 rounds; distinct by the whole case")
 ASSUMPTIONS = [
     "schedule values are compared at relative tolerance 1e-9 (libm log/sqrt/pow vs Lean Float), region bounds at 1e-12",
     "numeric sums: scipy erfc / chi2.sf taken as exact tails; tail blocks beyond T bracketed assuming the code's "
@@ -213,8 +219,47 @@ def sum_case(rng, structured):
     return {"kind": "sum", "alg": alg, "K": K, "m": rng.randint(2, 6), "delta": d, "T": 100000}
 
 
+MONITOR_FIXED = [
+    # (alg, Y, W, epsilon): design 0 enters P early and stays useful (design 1 sits exactly on the
+    # epsilon-boundary below it) for ~20 rounds; second: two Pareto designs useful for the whole budget
+    ("PaVeBa", [[1, 1], [0.5, 0.5]], [[1, 0], [0, 1]], 0.5),
+    ("PaVeBa", [[1, 0.5], [0.5, 1], [0.25, 0.25]], [[1, 0], [0, 1]], 0.5),
+    ("PaVeBa", [[1, 1], [1, 1], [0.5, 0.5]], [[1, 0], [0, 1]], 0.5),
+    ("PaVeBa", [[1, 1], [0.75, 0.75]], [[1, 0], [0, 1]], 1.0),
+    ("Auer", [[4, 4], [2, 2], [3.5, 4.25]], None, 0.25),
+    ("Auer", [[1, 1], [0.5, 0.5], [0.9, 1.05]], None, 0.25),
+]
+
+
+def monitor_case(rng, fixed_index=None):
+    if fixed_index is not None:
+        alg, Y, W, eps = MONITOR_FIXED[fixed_index]
+        delta, nv = 0.1, 1.0 / 64
+    else:
+        alg = rng.choice(["PaVeBa", "PaVeBa", "Auer"])
+        K = rng.randint(2, 4)
+        scale = rng.choice([1, 2, 4]) if alg == "Auer" else 1
+        Y = [[scale * core.dyadic(rng, 0, 8, 3) for _ in range(2)] for _ in range(K)]
+        if rng.random() < 0.6:  # put one design exactly epsilon below another: long useful phase
+            eps = rng.choice([0.25, 0.5])
+            Y[-1] = [Y[0][0] - eps, Y[0][1] - eps]
+        else:
+            eps = rng.choice([0.25, 0.5, 1.0])
+        W = rng.choice([[[1, 0], [0, 1]], [[1, 0], [0, 1]], [[2, 1], [1, 2]], [[2, -1], [-1, 2]]]) \
+            if alg == "PaVeBa" else None
+        delta = rng.choice([0.01, 0.1, 0.5])
+        nv = rng.choice([1.0 / 64, 1.0 / 16, 0.25])
+    return {"kind": "monitor", "alg": alg, "Y": Y, "W": W, "epsilon": eps, "delta": delta, "noise_var": nv,
+            "seed": rng.randint(0, 10 ** 6), "max_rounds": 300 if alg == "Auer" else 30}
+
+
 def gen(ctx):
     rng = ctx.rng
+    if ctx.worker == 0:
+        for k in range(len(MONITOR_FIXED)):
+            yield monitor_case(rng, fixed_index=k)
+    for _ in range(ctx.n(4, 280)):
+        yield monitor_case(rng)
     # the corner of the parameter space where the union bounds are tightest, always
     if ctx.worker == 0:
         for alg in SUM_ALGS:
@@ -451,6 +496,122 @@ def run_sum(ctx, case):
     ctx.case_done(case, partial > 0, canon=[sum_alg, K, m, delta])
 
 
+# ------------------------------------------------------------------------------------- monitor
+def run_monitor(ctx, case):
+    from scipy.special import erfc
+    from scipy.stats import chi2
+
+    from harness import stubs
+
+    alg = case["alg"]
+    key_alg = alg.lower()
+    Y = np.array(case["Y"], dtype=float)
+    K, m = Y.shape
+    delta, nv = case["delta"], case["noise_var"]
+    ctx.count("monitor_" + key_alg)
+    kw = dict(in_data=np.arange(K, dtype=float)[:, None], out_data=Y, epsilon=case["epsilon"], delta=delta,
+              noise_var=nv, conf_contraction=1)
+    if alg == "PaVeBa":
+        kw["W"] = case["W"]
+    a = stubs.build(alg, **kw)
+    ds = a.design_space
+    refreshed = []
+    real_update = ds.update
+
+    def recording_update(model, scale, indices_to_update=None):
+        refreshed.append(list(range(ds.cardinality)) if indices_to_update is None
+                         else [int(i) for i in indices_to_update])
+        return real_update(model, scale, indices_to_update)
+
+    ds.update = recording_update  # instance attribute of this run's design space only
+    ever_active, skipped = set(), set()
+    total, total_reentry = 0.0, 0.0
+    rounds = u_rounds = 0
+    problems = []  # (key, kind, what, detail) — first of each key is reported
+    with stubs.dyadic_noise(case["seed"]):
+        for _ in range(case["max_rounds"]):
+            refreshed.clear()
+            in_P_before = set(a.P)
+            try:
+                done = a.run_one_step()
+            except Exception as e:  # crashes of whole runs are C06's subject; here the monitor is simply lost
+                problems.append((f"monitor-crash:{key_alg}:" + core.exc_key(e), "F",
+                                 f"{alg}.run_one_step raised {type(e).__name__}: {e}", None))
+                break
+            t = int(a.round)
+            rounds += 1
+            if len(refreshed) != 1:
+                problems.append((f"monitor-refresh:{key_alg}", "F",
+                                 f"{alg}: design_space.update called {len(refreshed)} times in round {t}", None))
+                break
+            R = sorted(set(refreshed[0]))
+            if not set(a.S) <= set(R):
+                problems.append((f"monitor-refresh:{key_alg}", "F",
+                                 f"{alg}: round {t}: undecided designs {sorted(set(a.S) - set(R))} were not refreshed", None))
+            if any(i in in_P_before for i in R):
+                u_rounds += 1
+            counts = [len(sm) for sm in a.model.design_samples]
+            if alg == "PaVeBa":
+                sched = model_scale(ctx, "paveba", K, m, delta, t, nv, 1.0)
+            else:
+                sched = model_scale(ctx, "auer", K, m, delta, t, nv, 1.0)
+            for i in R:
+                n = counts[i]
+                reentry = i in skipped
+                reg = ds.confidence_regions[i]
+                if alg == "PaVeBa":
+                    shown = float(np.asarray(reg.alpha, dtype=float))
+                    ident = np.array_equal(np.asarray(reg.sigma, dtype=float).reshape(m, m), np.eye(m))
+                    if not close(shown, sched, RTOL_SCHED) or not ident:
+                        problems.append((f"monitor-radius:{key_alg}", "F",
+                                         f"PaVeBa round {t} design {i}: displayed radius {shown} (identity shape: {ident}) "
+                                         f"vs schedule term {sched}", None))
+                    term = float(chi2.sf(max(shown, 0.0) ** 2 * n / nv, m)) if shown == shown else 1.0
+                else:
+                    lo, up = np.asarray(reg.lower, dtype=float).ravel(), np.asarray(reg.upper, dtype=float).ravel()
+                    half = (up - lo) / 2.0
+                    if not all(abs(h - sched) <= 1e-9 * (1.0 + abs(sched) + abs(l) + abs(u)) for h, l, u in zip(half, lo, up)):
+                        problems.append((f"monitor-radius:{key_alg}", "F",
+                                         f"Auer round {t} design {i}: half-widths {half.tolist()} vs schedule term {sched}", None))
+                    # per-sample variance: the configured one, at most 1 as the property says
+                    term = float(sum(erfc(max(h, 0.0) * math.sqrt(n / min(1.0, nv)) / math.sqrt(2.0)) if h == h else 1.0
+                                     for h in half))
+                if n == t:
+                    ctx.count("monitor_refreshed_with_round_samples")
+                    total += term
+                elif n < t and reentry:
+                    ctx.count("reentered_U_info")
+                    total_reentry += term
+                elif n < t:
+                    problems.append((f"sampling-assumption:{key_alg}", "R",
+                                     f"{alg}: in round {t} the region of design {i} was refreshed with the round-{t} "
+                                     f"radius but the design holds only {n} samples (the schedule is valid for a mean of "
+                                     f"{t} samples)", {"round": t, "design": i, "samples": counts, "refreshed": R,
+                                                        "S": sorted(a.S), "P": sorted(a.P), "U": sorted(getattr(a, "U", []))}))
+                    total += term
+                else:
+                    ctx.count("monitor_more_samples_than_rounds_info")  # conservative for validity
+                    total += term
+            ever_active |= set(R)
+            skipped |= {i for i in ever_active if i not in R}
+            if done:
+                break
+    ctx.count("monitor_rounds", rounds)
+    ctx.count("monitor_rounds_with_U", u_rounds)
+    if not (total <= delta * (1 + 1e-12)):
+        problems.append((f"sum:{key_alg}-actual-counts", "R",
+                         f"{alg}: union-bound sum over this run with the ACTUAL sample counts n_i,t and the displayed "
+                         f"radii is {total:.6g} > delta = {delta}", {"sum": total, "rounds": rounds}))
+    elif total + total_reentry > delta:
+        ctx.count("reentry_sum_exceeds_delta_info")
+    seen = set()
+    for key, kind, what, detail in problems:
+        if key not in seen:
+            seen.add(key)
+            ctx.violation(key, what, case, kind=kind, detail=detail)
+    ctx.case_done(case, (u_rounds > 0) if alg == "PaVeBa" else rounds >= 2)
+
+
 def run_case(ctx, case):
     kind = case["kind"]
     if kind == "sched":
@@ -459,5 +620,7 @@ def run_case(ctx, case):
         run_region(ctx, case)
     elif kind == "sum":
         run_sum(ctx, case)
+    elif kind == "monitor":
+        run_monitor(ctx, case)
     else:
         raise ValueError(f"unknown case kind {kind}")
